@@ -105,9 +105,16 @@ def dying_run(root, k):
                 tick()
                 return real_remove(p, *a, **kw)
 
+            import uberjob  # noqa: F401 (loaded before its modules' globals are scanned)
+            from .. import interpose
+
+            real_rename, real_unlink, real_io_open = os.rename, os.unlink, io.open
             builtins.open = io.open = my_open
             os.replace = os.rename = my_replace
             os.remove = os.unlink = my_remove
+            # modules of the library that bound the functions by name (`from os import replace, remove`); child process: never restored
+            interpose.swap_globals([(real_open, my_open), (real_io_open, my_open), (real_replace, my_replace), (real_rename, my_replace),
+                                    (real_remove, my_remove), (real_unlink, my_remove)])
             try:
                 run_once(root)
             except BaseException:
